@@ -287,7 +287,100 @@ def explore_audit(task):
     return res
 
 
+def explore_extra(task):
+    """Two further call-site shapes: (1) a class-based rail action whose constructor raises (the dispatcher
+    instantiates classes lazily at the first call), (2) a Colang 1.0 turn that is started by an `event`
+    message instead of a user utterance and runs a failing action."""
+    from vf.engines.world import World
+    res = {"worlds": 2, "conversations": 0, "faults_injected": 0, "faulted_turns_fail_closed": 0,
+           "next_turns_checked": 0, "next_turn_spurious_refusals": 0, "action_sites": 0, "viol": []}
+    fn = llm_fn_for("general", "1.0")
+    # ---- (1) class action with a failing constructor, as input rail / output rail, v1 and v2
+    for version in ("1.0", "2.x"):
+        for site in ("in1", "out1"):
+            world = build(version, False, False)
+
+            class FailingInit:
+                def __init__(self):
+                    raise RuntimeError("cannot construct the rail action (e.g. missing credentials)")
+
+                async def run(self, rail=None, text=None):
+                    return True
+
+            name = "verif_rail" if version == "1.0" else "VerifRailAction"
+            calls = {"n": 0}
+            orig = world._rail_action
+
+            class Selective:
+                """fails to construct only for the chosen rail: registered under a second name"""
+
+            # register the failing class under a dedicated action name used by one rail only
+            bad_name = "verif_bad" if version == "1.0" else "VerifBadAction"
+            world.rails.register_action(FailingInit, name=bad_name)
+            res["conversations"] += 1
+            res["faults_injected"] += 1
+            info = {"engine": "E3-world", "prop": "C03", "version": version, "scenario": "class-action-constructor-raises", "site": site}
+            try:
+                if version == "1.0":
+                    colang = rw.v1_rail("in1", "input") + rw.v1_rail("out1", "output")
+                    colang = colang.replace(f'execute verif_rail(rail="{site}"', f'execute verif_bad(rail="{site}"')
+                    w2 = World(colang, "rails:\n  input:\n    flows: [in1]\n  output:\n    flows: [out1]\n")
+                    w2.rails.register_action(FailingInit, name="verif_bad")
+                    turn = rw.run_turn(w2, [{"role": "user", "content": "U1 hello"}], {"in1": "A", "out1": "A"}, fn)
+                else:
+                    colang = rw.v2_rail("in1", "input") + rw.v2_rail("out1", "output")
+                    colang = colang.replace(f'VerifRailAction(rail="{site}"', f'VerifBadAction(rail="{site}"')
+                    main = "import core\nimport guardrails\n" + colang + "\nflow input rails $input_text\n  in1 $input_text\n\nflow output rails $output_text\n  out1 $output_text\n" + V2_MAIN_LOOKUP
+                    w2 = World(main, 'colang_version: "2.x"\n')
+                    w2.rails.register_action(w2._rail_action, name="VerifRailAction")
+                    w2.rails.register_action(w2._dialog_action, name="VerifLookupAction")
+                    w2.rails.register_action(FailingInit, name="VerifBadAction")
+                    turn = rw.run_turn(w2, [{"role": "user", "content": "U1 hello"}], {"in1": "A", "out1": "A"}, llm_fn_for("free", "2.x"), state={})
+            except Exception as e:
+                res["viol"].append((f"harness:class-action:{version}:{site}", repr(e), info))
+                continue
+            if turn.exc is not None:
+                res["viol"].append((f"generate-raised:class-action-constructor:{'v2' if version == '2.x' else 'v1'}", f"rail {site} is a class whose constructor raises: generate raised {turn.exc!r}", info))
+                continue
+            llm_texts = [str(c.get("answer", "")).strip().strip('"') for c in turn.llm_calls if "LLMTEXT-" in str(c.get("answer", ""))]
+            if any(x and x in (turn.text or "") for x in llm_texts):
+                res["viol"].append((f"unchecked-llm-text-returned:class-action-constructor:{'v2' if version == '2.x' else 'v1'}:{site}", f"reply {turn.text!r}", info))
+            else:
+                res["faulted_turns_fail_closed"] += 1
+    # ---- (2) event-started turn (Colang 1.0)
+    colang = """
+define flow on silence
+  event UserSilent
+  $x = execute verif_lookup(q="silence")
+  bot ask if still there
+
+define bot ask if still there
+  "Are you still there?"
+"""
+    for fault in (False, True):
+        w3 = World(colang, "rails:\n  dialog:\n    single_call:\n      enabled: False\n")
+        res["conversations"] += 1
+        msgs = [{"role": "event", "event": {"type": "UserSilent"}}]
+        faults = (len(w3.action_log),) if fault else ()
+        turn = rw.run_turn(w3, msgs, {}, fn, faults=faults)
+        info = {"engine": "E3-world", "prop": "C03", "version": "1.0", "scenario": "event-started-turn", "fault": fault}
+        if turn.exc is not None:
+            res["viol"].append((f"generate-raised:event-started-turn:{'fault' if fault else 'no-fault'}", f"turn started by an `event` message, dialog action {'raises' if fault else 'ok'}: generate raised {turn.exc!r}", info))
+        elif fault:
+            res["faults_injected"] += 1
+            res["faulted_turns_fail_closed"] += 1
+    seen, uniq = set(), []
+    for v in res["viol"]:
+        if v[0] not in seen:
+            seen.add(v[0])
+            uniq.append(v)
+    res["viol"] = uniq
+    return res
+
+
 def dispatch(task):
+    if task[0] == "extra":
+        return explore_extra(task)
     if task[0] == "audit":
         return explore_audit(task)
     return explore(task)
@@ -308,6 +401,7 @@ def tasks(tier):
             out.append(("1.0", True, exc, "lookup", turns, pairs, kinds, "double"))
             out.append(("2.x", False, exc, "free", turns, pairs, kinds, "double"))
     out.append(("audit", False, 3 if tier == "quick" else 4, kinds))
+    out.append(("extra",))
     return out
 
 
